@@ -319,6 +319,34 @@ class Evaluator:
             return v if hit else self.ev(arm)
         if k in ("CallExpr", "CXXMemberCallExpr", "CXXOperatorCallExpr"):
             nm = self.prog.callee_name(f, n)
+            if k == "CXXOperatorCallExpr" and nm not in self.calls and (nm or "").split("::")[-1] in ("operator=", "operator+=") and len(f.args(n)) == 2:
+                # assignment / append between string values (objects of the string model)
+                lhs_, rhs_ = f.args(n)
+                try:
+                    rv_ = self.ev(rhs_)
+                except Thrown:
+                    raise
+                except Unknown:
+                    rv_ = None
+                if isinstance(rv_, tuple) and rv_[0] == "str":
+                    try:
+                        key_ = self.lkey(lhs_)
+                    except Unknown:
+                        key_ = None
+                    if key_ is not None:
+                        if nm.endswith("operator+="):
+                            old_ = self.env.get(key_)
+                            rv_ = ("str", old_[1] + rv_[1]) if isinstance(old_, tuple) and old_[0] == "str" else None
+                        if rv_ is not None:
+                            self.env[key_] = rv_
+                            self.stores.append((key_, rv_))
+                            return rv_
+                        self.env.pop(key_, None)
+                elif rv_ is None:
+                    try:
+                        self.env.pop(self.lkey(lhs_), None)      # the object no longer holds its old value
+                    except Unknown:
+                        pass
             indirect_target = None
             if k == "CallExpr" and not n.get("callee") and nm not in self.calls:
                 # a call through a function-pointer value: when the pointer folds to a function designator, the call is that function's
